@@ -501,6 +501,8 @@ func runSearch(c *vkit.Collector, g *gen, budget int) {
 	searchWide(c, g, 40*budget)
 	searchSubregions(c, g, 400*budget)
 	searchHull(c, g, 300*budget)
+	searchHullPolygons(c, g, 80*budget)
+	searchDecoded(c, g, 60*budget)
 	oracleRun(c)
 }
 
@@ -517,7 +519,6 @@ func searchPolygons(c *vkit.Collector, g *gen, n int) {
 		class := "polygon:shell"
 		if g.rng.Bool() {
 			hole := s2.RegularLoop(ctr, s1.Angle(rad*g.rng.Range(0.1, 0.7)), 3+g.rng.Intn(5))
-			hole.Invert()
 			loops = append(loops, hole)
 			class = "polygon:shell+hole"
 		}
@@ -811,7 +812,6 @@ func searchHull(c *vkit.Collector, g *gen, n int) {
 			rad := g.rng.Range(1e-6, 0.7)
 			outer := s2.RegularLoop(ctr, s1.Angle(rad), 3+g.rng.Intn(6))
 			hole := s2.RegularLoop(ctr, s1.Angle(rad*0.5), 4)
-			hole.Invert()
 			poly := s2.PolygonFromLoops([]*s2.Loop{outer, hole})
 			input = append(input, outer.Vertices()...)
 			q.AddPolygon(poly)
@@ -823,95 +823,100 @@ func searchHull(c *vkit.Collector, g *gen, n int) {
 			}
 			class = "hull:points"
 		}
-		hull := q.ConvexHull()
-		c.Evals++
-		rep := func() map[string]interface{} {
-			return map[string]interface{}{"class": class, "input": chainJSON(input), "hull": chainJSON(hull.Vertices())}
-		}
-		if len(input) == 0 {
-			if !hull.IsEmpty() {
-				violate(c, "ConvexHull.empty", "hull of nothing is not the empty loop", rep())
-			}
-			c.Class(class)
-			continue
-		}
-		if hull.IsFull() {
-			c.Class(class + "(full)")
-			continue
-		}
-		if hull.IsEmpty() {
-			violate(c, "ConvexHull.empty", "hull of a non-empty input is empty", rep())
-			continue
+		checkHull(c, class, input, q.ConvexHull())
+	}
+}
+
+// checkHull: the hull is convex (exact signs), a valid loop, and every input point is one of its
+// vertices or on the inner side of every hull edge.
+func checkHull(c *vkit.Collector, class string, input []s2.Point, hull *s2.Loop) {
+	c.Evals++
+	rep := func() map[string]interface{} {
+		return map[string]interface{}{"class": class, "input": chainJSON(input), "hull": chainJSON(hull.Vertices())}
+	}
+	if len(input) == 0 {
+		if !hull.IsEmpty() {
+			violate(c, "ConvexHull.empty", "hull of nothing is not the empty loop", rep())
 		}
 		c.Class(class)
-		c.NonTrivial["hull "+key(input...)] = true
-		hv := hull.Vertices()
-		m := len(hv)
-		isVertex := map[s2.Point]bool{}
-		for _, v := range hv {
-			isVertex[v] = true
+		return
+	}
+	if hull.IsFull() {
+		c.Class(class + "(full)")
+		return
+	}
+	if hull.IsEmpty() {
+		violate(c, "ConvexHull.empty", "hull of a non-empty input is empty", rep())
+		return
+	}
+	c.Class(class)
+	c.NonTrivial["hull "+key(input...)] = true
+	hv := hull.Vertices()
+	m := len(hv)
+	isVertex := map[s2.Point]bool{}
+	for _, v := range hv {
+		isVertex[v] = true
+	}
+	distinct := map[s2.Point]bool{}
+	for _, p := range input {
+		distinct[p] = true
+	}
+	// convex: every consecutive triple turns left (exact determinant; strict when the
+	// input has at least three distinct points)
+	for i := 0; i < m; i++ {
+		s := exactDetSign(hv[i], hv[(i+1)%m], hv[(i+2)%m])
+		if s < 0 { // s == 0 only for exactly collinear triples, decided by the symbolic perturbation
+			violate(c, "ConvexHull.convex", fmt.Sprintf("hull turns right at vertex %d (exact sign %d)", (i+1)%m, s), rep())
+			break
 		}
-		distinct := map[s2.Point]bool{}
-		for _, p := range input {
-			distinct[p] = true
+	}
+	if err := hull.Validate(); err != nil {
+		k := "ConvexHull.valid"
+		if len(distinct) == 2 && len(input) >= 2 && strings.Contains(err.Error(), "duplicate vertex") {
+			// known only for two distinct points within a few ulps of each other
+			var two []s2.Point
+			for p := range distinct {
+				two = append(two, p)
+			}
+			if float64(two[0].Angle(two[1].Vector)) <= 1e-15 {
+				k = "ConvexHull.singleEdgeLoop"
+			}
 		}
-		// convex: every consecutive triple turns left (exact determinant; strict when the
-		// input has at least three distinct points)
+		if strings.Contains(err.Error(), "antipodal") {
+			for _, p := range input {
+				if distinct[s2.Point{Vector: p.Mul(-1)}] { // known only when the input has an exactly antipodal pair
+					k = "ConvexHull.antipodal-input"
+				}
+			}
+		}
+		violate(c, k, "hull loop is invalid: "+err.Error(), rep())
+	}
+	// every input point is a vertex or contained
+	for _, p := range input {
+		if isVertex[p] {
+			return
+		}
+		if len(distinct) <= 2 {
+			violate(c, "ConvexHull.contains", "with <= 2 distinct input points every input point must be a hull vertex", rep())
+			break
+		}
+		inside := true
 		for i := 0; i < m; i++ {
-			s := exactDetSign(hv[i], hv[(i+1)%m], hv[(i+2)%m])
-			if s < 0 { // s == 0 only for exactly collinear triples, decided by the symbolic perturbation
-				violate(c, "ConvexHull.convex", fmt.Sprintf("hull turns right at vertex %d (exact sign %d)", (i+1)%m, s), rep())
-				break
+			if exactDetSign(hv[i], hv[(i+1)%m], p) < 0 {
+				inside = false
 			}
 		}
-		if err := hull.Validate(); err != nil {
-			k := "ConvexHull.valid"
-			if len(distinct) == 2 && len(input) >= 2 && strings.Contains(err.Error(), "duplicate vertex") {
-				// known only for two distinct points within a few ulps of each other
-				var two []s2.Point
-				for p := range distinct {
-					two = append(two, p)
-				}
-				if float64(two[0].Angle(two[1].Vector)) <= 1e-15 {
-					k = "ConvexHull.singleEdgeLoop"
-				}
-			}
-			if strings.Contains(err.Error(), "antipodal") {
-				for _, p := range input {
-					if distinct[s2.Point{Vector: p.Mul(-1)}] { // known only when the input has an exactly antipodal pair
-						k = "ConvexHull.antipodal-input"
-					}
-				}
-			}
-			violate(c, k, "hull loop is invalid: "+err.Error(), rep())
+		if !inside {
+			r := rep()
+			r["p"] = chainJSON([]s2.Point{p})
+			violate(c, "ConvexHull.contains", "an input point is neither a hull vertex nor on the inner side of every hull edge (exact signs)", r)
+			break
 		}
-		// every input point is a vertex or contained
-		for _, p := range input {
-			if isVertex[p] {
-				continue
-			}
-			if len(distinct) <= 2 {
-				violate(c, "ConvexHull.contains", "with <= 2 distinct input points every input point must be a hull vertex", rep())
-				break
-			}
-			inside := true
-			for i := 0; i < m; i++ {
-				if exactDetSign(hv[i], hv[(i+1)%m], p) < 0 {
-					inside = false
-				}
-			}
-			if !inside {
-				r := rep()
-				r["p"] = chainJSON([]s2.Point{p})
-				violate(c, "ConvexHull.contains", "an input point is neither a hull vertex nor on the inner side of every hull edge (exact signs)", r)
-				break
-			}
-			if !hull.ContainsPoint(p) && !onHullBoundary(hv, p) {
-				r := rep()
-				r["p"] = chainJSON([]s2.Point{p})
-				violate(c, "ConvexHull.ContainsPoint", "an input point is not a vertex and hull.ContainsPoint is false", r)
-				break
-			}
+		if !hull.ContainsPoint(p) && !onHullBoundary(hv, p) {
+			r := rep()
+			r["p"] = chainJSON([]s2.Point{p})
+			violate(c, "ConvexHull.ContainsPoint", "an input point is not a vertex and hull.ContainsPoint is false", r)
+			break
 		}
 	}
 }
